@@ -85,14 +85,24 @@ def _apply(variant: Dict[str, Any], tmp: Path) -> str:
         if p.returncode != 0:
             return "patch does not apply to this tree"
         return ""
-    for file, old, new in variant["edits"]:
+    for edit in variant["edits"]:
+        file, old, new = edit[:3]
+        nth = edit[3] if len(edit) > 3 else None  # optional: which occurrence (0-based) when the text is not unique
         path = tmp / file
         if not path.is_file():
             return f"{file} missing"
         text = path.read_text()
-        if text.count(old) != 1:
-            return f"anchor text occurs {text.count(old)} times in {file}"
-        text = text.replace(old, new)
+        if nth is None:
+            if text.count(old) != 1:
+                return f"anchor text occurs {text.count(old)} times in {file}"
+            text = text.replace(old, new)
+        else:
+            if text.count(old) <= nth:
+                return f"anchor text occurs {text.count(old)} times in {file} (occurrence {nth} wanted)"
+            pos = -1
+            for _ in range(nth + 1):
+                pos = text.index(old, pos + 1)
+            text = text[:pos] + new + text[pos + len(old):]
         try:
             ast.parse(text)
         except SyntaxError as exc:
